@@ -67,6 +67,23 @@ def CopyOK (objs : Oid → Option Obj) (ci : ClassInfo) (o : Obj) : Prop :=
   ((ci.kind = .nparr ∨ ci.kind = .pyarr) → ∀ c ∈ o.items, c.isAtom = true) ∧
   (ci.kind = .tree → ∀ c ∈ o.items, ImmLeaf objs c)
 
+/-- `InstOf ct c c'`: instantiating the class `c` instantiates the class `c'` — `c` itself, or a
+class named in the `dict_inst` of such a class (`init_type` calls it). -/
+inductive InstOf (ct : ClassTable) : ClsId → ClsId → Prop where
+  | self (c : ClsId) : InstOf ct c c
+  | step (c : ClsId) (ci : ClassInfo) (p : Name × ClsId) (c' : ClsId) :
+      ct[c]? = some ci → p ∈ ci.dictInst → InstOf ct p.2 c' → InstOf ct c c'
+
+/-- Side condition under which a *freshly created* instance of `c` (with atom items) satisfies
+`CopyOK` throughout: the fitness classes it instantiates were created without `dict_inst`
+attributes ("assumes … the fitness does not contain any other object", base.py:255-257).  Nothing
+is required of the other kinds: a new instance has all its `dict_inst` attributes, a new
+`ConstrainedFitness` has `constraint_violation` (set by `base.__init__`), and the nested instances
+have no items. -/
+def CreateOK (ct : ClassTable) (c : ClsId) : Prop :=
+  ∀ c' ci, InstOf ct c c' → ct[c']? = some ci →
+    (ci.kind = .fitness ∨ ci.kind = .cfitness) → ci.dictInst = []
+
 /-- Side condition of the *pickle* hooks: only the kinds whose reduce tuple calls the class need
 the original to still have its `dict_inst` attributes. -/
 def PickleOK (_objs : Oid → Option Obj) (ci : ClassInfo) (o : Obj) : Prop :=
